@@ -293,7 +293,10 @@ def c14(c):
     c.assumptions += ["the search for boundary chunks (driver, sha3 crate) only selects inputs; the verdict is TLC's recomputation"]
 
 
-C04_FACTS = {"ntru_eq", "f_invertible", "pk_relation", "gs_first", "leaf_count", "leaves_in_range", "tree_shape", "candidate_machine", "last_candidate_accepted", "panic"}
+# (C04 is observed at SecretKey::to_bytes: the EXPORTED (f, g, F) must be the trapdoor for which the equation was decided, so the two
+# facts that tie the bytes to the in-memory polynomials count for C04 as well)
+C04_FACTS = {"ntru_eq", "f_invertible", "pk_relation", "gs_first", "leaf_count", "leaves_in_range", "tree_shape", "candidate_machine", "last_candidate_accepted", "panic",
+             "sk_decodes_to_original", "representable"}
 C05_FACTS = {"sk_bytes", "sk_len", "pk_len", "pk_decodes", "sk_decodes_to_original", "sk_roundtrip", "pk_roundtrip", "representable", "panic"}
 
 
